@@ -81,10 +81,29 @@ def _init_worker(modname, driver_ok):
     warnings.simplefilter('ignore')
 
 
+_WATCHDOG_HITS = [0]     # per worker process
+
+
 def eval_one(mod, scn, driver_ok=True, model_out=None):
     """Run one scenario through implementation, model and oracle."""
     rec = {'scn': scn, 'infra': None, 'div': None, 'viol': [], 'tags': [], 'nontrivial': True,
            'trace': None, 'model': None, 'lines': None}
+    # watchdog for a busy loop of the code under test (an event loop that never goes idle): real time per
+    # scenario is bounded; scenarios take milliseconds to a few seconds on the unchanged tree
+    import signal
+    limit = int(os.environ.get('VERIF_SCENARIO_LIMIT_S', '240'))
+    if _WATCHDOG_HITS[0]:
+        # a tree on which scenarios hang: do not spend the full limit on every one of them
+        limit = min(limit, 5)
+
+    def _busy(signum, frame):
+        _WATCHDOG_HITS[0] += 1
+        raise vtime.Deadlock(f'the scenario did not finish within {limit} s of real time (busy loop?)')
+    can_alarm = hasattr(signal, 'SIGALRM') and __import__('threading').current_thread() is __import__('threading').main_thread()
+    if can_alarm:
+        old_handler = signal.signal(signal.SIGALRM, _busy)
+        # repeating: an exception raised while a destructor / weakref callback runs is swallowed by Python
+        signal.setitimer(signal.ITIMER_REAL, limit, 2.0)
     try:
         res = mod.run_impl(scn)
     except vtime.Deadlock as err:
@@ -109,6 +128,10 @@ def eval_one(mod, scn, driver_ok=True, model_out=None):
             return rec
         rec['infra'] = 'run_impl: ' + traceback.format_exc()[-1500:]
         return rec
+    finally:
+        if can_alarm:
+            signal.setitimer(signal.ITIMER_REAL, 0)
+            signal.signal(signal.SIGALRM, old_handler)
     rec['lines'] = res['lines']
     rec['trace'] = res['trace']
     rec['tags'] = res.get('tags', [])
